@@ -21,6 +21,7 @@ def run(ck, fb):
     r08l(ck, fb)
     r08m(ck, fb)
     r08n(ck, fb)
+    ck.borrow('rules.c01', {'R01ac': 'R08p'}, 'a late joiner is filled from a snapshot: it must list the namespaces in the order the leader serves them')
     ck.borrow('rules.c05', {'R05h': 'R08i'}, 'the membership saved when a snapshot is installed must be the one recorded in that snapshot')
 
 
